@@ -321,11 +321,36 @@ func runC06proc(c *runCtx) {
 		// background processing resumes from the stored state: short-timeout promises get timed out
 		time.Sleep(2200 * time.Millisecond)
 		if snap, err := srv.Snapshot(); err == nil {
-			now := time.Now().UnixMilli()
-			for id, p := range snap.P {
-				if p.State == 1 && p.Timeout < now-1500 {
-					c.violate("recovery:promise-not-timed-out", fmt.Sprintf("round %d: promise %s (timeout %d) is still pending %d ms after its deadline although the server has been running", round, id, p.Timeout, now-p.Timeout), nil)
+			// promises overdue by more than 1.5 s: on a loaded machine the server may simply not have been scheduled,
+			// so they get another 15 s (the sweep runs every 50 ms) before this is called a violation
+			late := func(sn *vh.Snapshot) map[string]*vh.PRow {
+				now := time.Now().UnixMilli()
+				out := map[string]*vh.PRow{}
+				for id, p := range sn.P {
+					if p.State == 1 && p.Timeout < now-1500 {
+						out[id] = p
+					}
 				}
+				return out
+			}
+			first := late(snap)
+			for t := 0; t < 30 && len(first) > 0; t++ {
+				time.Sleep(500 * time.Millisecond)
+				sn2, err := srv.Snapshot()
+				if err != nil {
+					break
+				}
+				still := map[string]*vh.PRow{}
+				for id := range late(sn2) {
+					if first[id] != nil {
+						still[id] = first[id]
+					}
+				}
+				first = still
+			}
+			now := time.Now().UnixMilli()
+			for id, p := range first {
+				c.violate("recovery:promise-not-timed-out", fmt.Sprintf("round %d: promise %s (timeout %d) is still pending %d ms after its deadline although the server has been running", round, id, p.Timeout, now-p.Timeout), nil)
 			}
 			l.check(c, snap, fmt.Sprintf("round %d, end of workload", round))
 		}
